@@ -220,7 +220,16 @@ Plan generate_plan(const std::string &lane, uint64_t seed, int tier) {
     // lane-specific prelude so that most runs reach the state their oracles need
     auto pre = [&](int kind, const char *name) { Op o = mk(kind); o.s = name; o.a[5] = 7; p.ops.push_back(o); return &p.ops.back(); };
     if (lane == "props") { Op *o = pre(OP_create_section, "a"); o->a[1] = 0; pre(OP_prop_create, "b")->a[3] = 0; }
-    else if (lane == "frame") { Op *o = pre(OP_create_frame, "a"); o->a[1] = 0; o->a[2] = 0; pre(OP_frame_rows, "a"); }
+    else if (lane == "frame") {
+        Op *o = pre(OP_create_frame, "a"); o->a[1] = 0; o->a[2] = 0; o = pre(OP_frame_rows, "a");
+        // one run in twelve is a short history on a long frame (several hundred rows: more than one storage chunk, more than any
+        // fixed-size batch a reader may use), dominated by column reads and writes with offsets
+        if (r.chance(1, 12)) {
+            o->a[5] = 1;
+            s.nops = r.range(5, 10);
+            s.weights[OP_frame_read_col] *= 6; s.weights[OP_frame_write_col] *= 4; s.weights[OP_frame_rows] = 1; s.weights[OP_create_frame] = 1;
+        }
+    }
     else if (lane == "dims" || lane == "array") { Op *o = pre(OP_create_array, "a"); o->a[1] = 0; o->a[5] = 0; }
     else if (lane == "delete" || lane == "names" || lane == "idhist" || lane == "tree" || lane == "durable") {
         Op *o = pre(OP_create_array, "a"); o->a[1] = 0; o->a[5] = 0;
